@@ -265,6 +265,18 @@ func (g *Gen) dupRel(names []int, path string) string {
 	return ""
 }
 
+// dupComp: occasionally the same component ID twice in one list (ID-based path only; the typed
+// API cannot express it). Every such call must be rejected: "already has / added twice" for
+// additions, "does not have" for the second removal.
+func (g *Gen) dupComp(cs []int, path string) []int {
+	if path != "u" || len(cs) == 0 || !g.chance(0.03) {
+		return cs
+	}
+	g.OpKinds["(duplicate-id)"]++
+	out := append([]int{}, cs...)
+	return append(out, cs[g.pick(len(cs))])
+}
+
 func (g *Gen) subset(names []int, min, max int) []int {
 	if len(names) == 0 {
 		return nil
@@ -586,6 +598,7 @@ func (g *Gen) opNew() bool {
 	}
 	cs = g.tupleOrder(cs)
 	p := g.path(cs, true)
+	cs = g.dupComp(cs, p)
 	g.emit(fmt.Sprintf("new e%d %s %s%s", l, p, g.compTokens(cs, true, 0.02, 0.03), g.dupRel(cs, p)))
 	return true
 }
@@ -616,6 +629,7 @@ func (g *Gen) opAdd() bool {
 	if p == "" {
 		p = "u"
 	}
+	cs = g.dupComp(cs, p)
 	g.emit(strings.TrimSpace(fmt.Sprintf("add %s %s %s%s", el, p, g.compTokens(cs, true, 0.02, 0.03), g.dupRel(cs, p))))
 	return true
 }
@@ -643,6 +657,7 @@ func (g *Gen) opRem() bool {
 	}
 	cs = g.tupleOrder(cs)
 	p := g.path(cs, true)
+	cs = g.dupComp(cs, p)
 	g.emit(fmt.Sprintf("rem %s %s %s", el, p, joinSp(cs)))
 	return true
 }
@@ -1144,6 +1159,72 @@ func (g *Gen) opNewBatch() bool {
 	return true
 }
 
+// opBigTable: a table beyond 64 rows (the threshold at which the code switches from row-wise
+// zeroing to bulk clearing), emptied by Reset / batch removal / batch exchange, then refilled
+// with components added WITHOUT initial values, which must read zero.
+func (g *Gen) opBigTable() bool {
+	if !g.chance(0.12) {
+		return false
+	}
+	names := g.regNames()
+	var plain []int
+	for _, n := range names {
+		if !g.isRel(n) {
+			plain = append(plain, n)
+		}
+	}
+	cs := g.tupleOrder(g.subset(plain, 1, 3))
+	if len(cs) == 0 {
+		return false
+	}
+	g.drainQueries()
+	p := g.path(cs, false)
+	if p == "" {
+		cs = cs[:1]
+		p = "m"
+	}
+	cnt := 65 + g.pick(40)
+	l := g.nextEnt
+	g.nextEnt += cnt
+	for i := 0; i < cnt; i++ {
+		g.ents = append(g.ents, l+i)
+	}
+	g.emit(fmt.Sprintf("newb e%d %d %s fn %s", l, cnt, p, g.compTokens(cs, true, 0, 0)))
+	// empty the table
+	fl := g.nextFilter
+	g.nextFilter++
+	g.emit(fmt.Sprintf("filter f%d typed with=%s excl", fl, joinComps(cs)))
+	if _, ok := g.h.filters[fl]; ok {
+		g.filterLabels = append(g.filterLabels, fl)
+		g.typedFilters = append(g.typedFilters, fl)
+	}
+	switch g.pick(3) {
+	case 0:
+		g.emit("reset")
+		for _, f := range g.typedFilters {
+			g.h.filters[f].cached = false
+		}
+		g.ents = nil
+	case 1:
+		g.emit(fmt.Sprintf("delb f%d nofn", fl))
+	default:
+		if g.chance(0.5) {
+			g.emit("shrink")
+		}
+		g.emit(fmt.Sprintf("delb f%d fn", fl))
+	}
+	// refill without values
+	cnt2 := cnt/2 + g.pick(cnt)
+	l2 := g.nextEnt
+	g.nextEnt += cnt2
+	for i := 0; i < cnt2; i++ {
+		g.ents = append(g.ents, l2+i)
+	}
+	g.emit(fmt.Sprintf("newb e%d %d %s nofn %s", l2, cnt2, p, g.compTokens(cs, false, 0, 0)))
+	g.OpKinds["(big-table)"]++
+	return true
+}
+
 func (g *Gen) batchFilter() (int, bool) {
 	if len(g.typedFilters) == 0 {
 		return 0, false
@@ -1317,6 +1398,54 @@ func (g *Gen) opQStep() bool {
 			}
 		}
 	}
+	return true
+}
+
+// opLockExhaustion: open queries until 64 are open, request the 65th (must be rejected with the
+// world still usable), close one (possibly twice), open another, then go on: up to 64 queries may
+// be open at once, and a rejected 65th must not disturb the lock.
+func (g *Gen) opLockExhaustion() bool {
+	if len(g.filterLabels) == 0 || g.cfg.maxOpen < 64 || !g.chance(0.25) {
+		return false
+	}
+	open := func() int {
+		l := g.filterLabels[g.pick(len(g.filterLabels))]
+		q := g.nextQuery
+		g.nextQuery++
+		g.emit(fmt.Sprintf("qopen q%d f%d", q, l))
+		if _, ok := g.h.queries[q]; ok {
+			g.openQueries = append(g.openQueries, q)
+		}
+		return q
+	}
+	for n := 0; len(g.openQueries) < 64 && n < 80; n++ {
+		open()
+	}
+	if len(g.openQueries) < 64 {
+		return true
+	}
+	open() // the 65th
+	g.emit("locked")
+	// the world must still work: close one, (close it again), open another, a structural op is rejected
+	i := g.pick(len(g.openQueries))
+	q := g.openQueries[i]
+	g.emit(fmt.Sprintf("qclose q%d", q))
+	g.openQueries = append(g.openQueries[:i], g.openQueries[i+1:]...)
+	if g.chance(0.5) {
+		g.emit(fmt.Sprintf("qclose q%d", q))
+	}
+	open()
+	if g.chance(0.5) {
+		open() // again the 65th
+	}
+	g.emit(fmt.Sprintf("new0 e%d", g.nextEnt))
+	g.ents = append(g.ents, g.nextEnt)
+	g.nextEnt++
+	if g.chance(0.5) {
+		g.drainQueries()
+		g.emit("locked")
+	}
+	g.OpKinds["(lock-exhaustion)"]++
 	return true
 }
 
@@ -1641,6 +1770,8 @@ func (g *Gen) Run(nseq, nops int) {
 			{"staleq", 1, g.opStaleTargetQuery},
 			{"tuplescn", 1, g.opTupleScenario},
 			{"locked", 1, func() bool { g.emit("locked"); return true }},
+			{"bigtable", 1, g.opBigTable},
+			{"lockexh", 1, g.opLockExhaustion},
 		}
 		total := 0
 		for i := range ops {
